@@ -3,6 +3,7 @@ package main
 // Symbolic executor over go/ssa (NaiveForm): generates named obligations.
 
 import (
+	"regexp"
 	"fmt"
 	"os"
 	"go/constant"
@@ -1455,6 +1456,7 @@ func rootAlloc(v ssa.Value) (*ssa.Alloc, bool) {
 // return: postconditions and frame
 
 func (x *Exec) atReturn(st *State, r *ssa.Return) {
+	x.lockBalance(st, r)
 	if x.fc == nil {
 		return
 	}
@@ -2371,5 +2373,39 @@ func (x *Exec) closureCreated(st *State, in ssa.Instruction, fv *FuncVal) {
 		ctx := &EvalCtx{x: x, prog: x.prog, st: st, old: st, vars: vars, pkg: pkg, noLocals: true}
 		t := x.evalClauseAt(ctx, c)
 		x.oblige(st, "pre", fmt.Sprintf("%s.%s#created", lastName(shortFuncName(funcKey(fv.Fn))), c.Label), t, c.Text)
+	}
+}
+
+// lockBalance: a function must not return holding a mutex it acquired itself (deferred unlocks have run by now), unless
+// its contract says so (`acquires`). A leaked lock blocks every later critical section on that mutex.
+func (x *Exec) lockBalance(st *State, r *ssa.Return) {
+	if len(st.held) == 0 {
+		return
+	}
+	declared := map[string]bool{}
+	if x.fc != nil && len(x.fc.Acquires) > 0 {
+		ctx := x.ctxFor(st, x.entry, nil)
+		for _, e := range x.fc.Acquires {
+			func() {
+				defer func() { recover() }()
+				declared[ctx.lockKeyTerm(e)] = true
+			}()
+		}
+	}
+	var keys []string
+	for k := range st.held {
+		if x.entry != nil && x.entry.held[k] {
+			continue
+		}
+		if declared[k] {
+			continue
+		}
+		keys = append(keys, k)
+	}
+	sort.Strings(keys)
+	x.curInstr = r
+	for _, k := range keys {
+		stable := regexp.MustCompile(`![0-9]+`).ReplaceAllString(k, "")
+		x.oblige(st, "guard", "released_before_return:"+stable, False, "the function returns while still holding "+k)
 	}
 }
